@@ -183,6 +183,57 @@ pub fn c16_to_vec_vs_push4_after_release() {
     teardown(l);
 }
 
+/// The relocation schedules from a *full* list (len == capacity == 4, built directly by hook `full_u64_list` - the
+/// state four pushes reach): ONE push by the other thread relocates the storage (4 -> 8). Much cheaper for CBMC than
+/// reaching the boundary by four pushes, so these are proofs, not refutation attempts.
+fn setup_full_at(other: fn(u32), only_site: u32) -> (List<u64>, [u64; 4]) {
+    let m: [u64; 4] = any();
+    let l = list_verif::full_u64_list(&m);
+    unsafe {
+        FIRED_AT = 0;
+        ONLY_SITE = only_site;
+        SHARED = Some(l.clone());
+        sched::reset();
+        YIELD_HOOK = Some(other);
+    }
+    (l, m)
+}
+
+macro_rules! full_vs_push1 {
+    ($name:ident, $site:expr, $op:ident) => {
+        #[cfg_attr(kani, kani::proof)]
+        #[cfg_attr(kani, kani::unwind(8))]
+        #[cfg_attr(kani, kani::stub(std::sync::Mutex::lock, crate::stubs::mutex_lock_stub))]
+        pub fn $name() {
+            let (l, m) = setup_full_at(other_push1, $site);
+            full_vs_push1!(@$op l, m, $site);
+            teardown(l);
+        }
+    };
+    (@get $l:ident, $m:ident, $site:expr) => {
+        let i: usize = any();
+        assume(i <= 3);
+        let g = $l.get(i);
+        let at = done();
+        assert!(g == Some($m[i]), "get returned something else than the stored element");
+        assert!($l.capacity() == if at != 0 { 8 } else { 4 });
+        cover!(at == $site, "preempted_and_relocated");
+    };
+    (@to_vec $l:ident, $m:ident, $site:expr) => {
+        let v = $l.to_vec();
+        let at = done();
+        // the push happens before to_vec's critical section (5 elements) or after it (4)
+        assert!(v.len() == if at != 0 && at < sched::RELEASE_BASE { 5 } else { 4 }, "to_vec length is not the length at its linearisation point");
+        assert!(v[0] == $m[0] && v[3] == $m[3], "to_vec returned something else than the stored elements");
+        cover!(at == $site, "preempted_and_relocated");
+        std::mem::forget(v);
+    };
+}
+full_vs_push1!(c16_full_get_vs_push1_before_lock, 1, get);
+full_vs_push1!(c16_full_get_vs_push1_after_release, sched::RELEASE_BASE + 1, get);
+full_vs_push1!(c16_full_to_vec_vs_push1_before_lock, 14, to_vec);
+full_vs_push1!(c16_full_to_vec_vs_push1_after_release, sched::RELEASE_BASE + 1, to_vec);
+
 /// `get(i)` vs one push without reallocation: linearisable (index == old
 /// length sees the pushed element iff the push's critical section came first).
 #[cfg_attr(kani, kani::proof)]
@@ -380,6 +431,10 @@ big_get_vs_push!(c16_big_get_vs_push_realloc, 1, false);
 big_get_vs_push!(c16_big_ffi_get_vs_push_realloc, 11, true);
 
 crate::list![
+    c16_full_get_vs_push1_before_lock,
+    c16_full_get_vs_push1_after_release,
+    c16_full_to_vec_vs_push1_before_lock,
+    c16_full_to_vec_vs_push1_after_release,
     c16_to_vec_vs_push4_after_release,
     c16_len_vs_push1_linearizable,
     c16_push_vs_push1_linearizable,
